@@ -337,6 +337,19 @@ func TestCheck(t *testing.T) {
 		return nil
 	})
 
+	r.Phase(fmt.Sprintf("W: %d conventional special texts (null, nil, latest, HEAD, v, ...) x limits through every entry point", len(ref.ConventionalTexts)), func() {
+		for _, lim := range []int{0, -1, 5} {
+			restore := setLimit(lim)
+			r.Serial(func(w *vkit.W) {
+				for _, text := range ref.ConventionalTexts {
+					judge(Case{Kind: "text", Text: vkit.B(text), Limit: lim}, w)
+					w.EvalRandom(vkit.Hash64("W", text, strconv.Itoa(lim)), true)
+				}
+			})
+			restore()
+		}
+	})
+
 	L := r.Pick(7, 9)
 	r.Phase(fmt.Sprintf("A: every string over {0,1,9,a,Z,-,.,+,v} up to length %d x 17 entry points", L), func() {
 		for n := 0; n <= L; n++ {
